@@ -708,9 +708,11 @@ func isUnknownSpec(a predOutcome) predOutcome {
 // keeps the one value they cannot handle away from them
 //@ func applyIntCallback
 //@ props C13 C16
-//@ atcall intCallback assert [C13 C16] never-the-smallest-integer: arg_0 != -9223372036854775808
+//@ mode bv
+//@ atcall intCallback assert [C13 C16] smallest-integer-only-when-unchanged: arg_0 == -9223372036854775808 ==> sameFloat(dynret[float64](floatCallback, 0, toFloat(x)), toFloat(x))
 //@ ensures [C13 C16] integer: x != -9223372036854775808 ==> r0 == any(dynret[int64](intCallback, 0, x))
-//@ ensures [C13 C16] smallest-integer-as-float: x == -9223372036854775808 ==> r0 == any(dynret[float64](floatCallback, 0, toFloat(x)))
+//@ ensures [C13 C16] smallest-integer-as-float: x == -9223372036854775808 && !sameFloat(dynret[float64](floatCallback, 0, toFloat(x)), toFloat(x)) ==> r0 == any(dynret[float64](floatCallback, 0, toFloat(x)))
+//@ ensures [C13 C16] smallest-integer-unchanged: x == -9223372036854775808 && sameFloat(dynret[float64](floatCallback, 0, toFloat(x)), toFloat(x)) ==> r0 == any(dynret[int64](intCallback, 0, x))
 //@ ensures [C13 C16] result-numeric: is[int64](r0) || is[float64](r0)
 
 //@ func intSelf
@@ -769,7 +771,8 @@ func isUnknownSpec(a predOutcome) predOutcome {
 //@ atcall executeItemOptUnwrapResult assert [C13] operand: arg_value == value && arg_unwrap && arg_node == node.Operand()
 //@ atcall executeNextItem assert [C13] numeric-only: arg_found == found && (is[int64](v) || is[float64](v) || is[json.Number](v))
 //@ atcall executeNextItem assert [C13] int-negated: is[int64](v) && as[int64](v) != -9223372036854775808 ==> arg_value == any(dynret[int64](intCallback, 0, as[int64](v)))
-//@ atcall executeNextItem assert [C13] smallest-int-negated-as-float: is[int64](v) && as[int64](v) == -9223372036854775808 ==> arg_value == any(dynret[float64](floatCallback, 0, toFloat(as[int64](v))))
+//@ atcall executeNextItem assert [C13] smallest-int-negated-as-float: is[int64](v) && as[int64](v) == -9223372036854775808 && !sameFloat(dynret[float64](floatCallback, 0, toFloat(as[int64](v))), toFloat(as[int64](v))) ==> arg_value == any(dynret[float64](floatCallback, 0, toFloat(as[int64](v))))
+//@ atcall executeNextItem assert [C13] smallest-int-kept-by-plus: is[int64](v) && as[int64](v) == -9223372036854775808 && sameFloat(dynret[float64](floatCallback, 0, toFloat(as[int64](v))), toFloat(as[int64](v))) ==> arg_value == any(dynret[int64](intCallback, 0, as[int64](v)))
 //@ atcall executeNextItem assert [C13] float-negated: is[float64](v) ==> arg_value == any(dynret[float64](floatCallback, 0, as[float64](v)))
 //@ ensures [C13 C06 C09] not-found-means-every-item-tried: r0 == statusNotFound && r1 == nil && !(node.Next() == nil && found == nil) ==> ncalls(exec.executeNextItem) == len(seq.list)
 //@ ensures [C06 C13] exists-ok-comes-from-continuation: found == nil && node.Next() != nil && r0 == statusOK ==> ncalls(exec.executeNextItem) >= 1 && callret[resultStatus](exec.executeNextItem, 0) == statusOK
